@@ -31,7 +31,7 @@ func (s c18RowState) same(o c18RowState) bool {
 }
 
 func runC18(run *common.Run) {
-	run.Rule = "case = one ReadRows scan (full table or a key range; several response messages, so the table lock is released several times) running concurrently with 4 writer goroutines that each own a disjoint set of rows and rewrite all columns with one version tag, delete, re-create and read-modify-write-append them; 10% of rows are never written. Every row state and every scan carries logical call/return stamps from one atomic counter. Oracle per scan: status OK, keys strictly ascending without duplicates, every returned row is exactly one of the states that row had between scan start and scan end, a missing row must have had an 'absent' state in that window, unwritten rows exact. A PRNG-chosen subset of the scan's lock releases is held for a bounded time (hook ReadRows.unlocked). Non-trivial = scan during which at least one row had more than one admissible state; distinct by scan."
+	run.Rule = "case = one ReadRows scan (full table or a key range; several response messages, so the table lock is released several times) running concurrently with 6 writer goroutines (three quarters of their writes aimed just ahead of a scan's current position) that each own a disjoint set of rows and rewrite all columns with one version tag, delete, re-create and read-modify-write-append them; 10% of rows are never written. Every row state and every scan carries logical call/return stamps from one atomic counter. Oracle per scan: status OK, keys strictly ascending without duplicates, every returned row is exactly one of the states that row had between scan start and scan end, a missing row must have had an 'absent' state in that window, unwritten rows exact. A PRNG-chosen subset of the scan's lock releases is held for a bounded time (hook ReadRows.unlocked). Non-trivial = scan during which at least one row had more than one admissible state; distinct by scan."
 	run.Assumptions = []string{"leveldb-mem and leveldb-disk engines only (the btree engine documents that it does not offer this)", "per-row single-writer ownership makes each row's state sequence exactly known"}
 	rounds := run.N(4, 60)
 	scansPerRound := run.N(10, 25)
@@ -45,7 +45,7 @@ func runC18(run *common.Run) {
 		n := atomic.AddUint64(&seq, 1)
 		if common.Hash64("c18", fmt.Sprint(run.Seed), fmt.Sprint(n))%2 == 0 {
 			atomic.AddInt64(&holds, 1)
-			time.Sleep(time.Duration(1+n%3) * time.Millisecond)
+			time.Sleep(time.Duration(2+n%4) * time.Millisecond)
 		}
 	})
 	defer bttest.VerifSetHandler(nil)
@@ -59,6 +59,7 @@ func runC18(run *common.Run) {
 		c18Round(run, round, engine, scansPerRound)
 	}
 	j.End(0)
+	run.ScanRaceLogs("github.com/fullstorydev/emulators/bigtable")
 	run.Count("scan_lock_releases_seen", atomic.LoadInt64(&unlocked))
 	run.Count("scan_lock_releases_held", atomic.LoadInt64(&holds))
 	if run.Replay == nil && atomic.LoadInt64(&unlocked) == 0 {
@@ -109,7 +110,9 @@ func c18Round(run *common.Run, round int, engine string, nscans int) {
 			entries = nil
 		}
 	}
-	const W = 4
+	const W = 6
+	// scanners publish the index of the last row they received; writers aim most of their writes just ahead of a scan
+	var scanPos [3]int64
 	stop := make(chan struct{})
 	var wg sync.WaitGroup
 	var writeErr atomic.Value
@@ -132,6 +135,9 @@ func c18Round(run *common.Run, round int, engine string, nscans int) {
 				}
 				// own rows: i % 10 != 9 (10% never written) and (i/10) % W == w
 				i := wr.Intn(N)
+				if wr.Chance(3, 4) {
+					i = (int(atomic.LoadInt64(&scanPos[wr.Intn(3)])) + 1 + wr.Intn(700)) % N
+				}
 				i = i - i%10 + wr.Intn(9)
 				if (i/10)%W != w {
 					continue
@@ -142,11 +148,11 @@ func c18Round(run *common.Run, round int, engine string, nscans int) {
 				var st drive.Status
 				call := clock.Tick()
 				switch x := wr.Intn(10); {
-				case x < 5 || !cur.Present:
+				case x < 4 || !cur.Present:
 					tag := fmt.Sprintf("w%d.%d", w, n)
 					next = c18RowState{Present: true, Tag: tag}
 					st = drive.MutateRow(data, table, key(i), dataMuts(tag))
-				case x < 7:
+				case x < 8:
 					next = c18RowState{}
 					st = drive.MutateRow(data, table, key(i), []model.Mut{{Kind: model.DelRow}})
 				default:
@@ -197,7 +203,14 @@ func c18Round(run *common.Run, round int, engine string, nscans int) {
 					req.Rows = &btpb.RowSet{RowRanges: []*btpb.RowRange{{StartKey: &btpb.RowRange_StartKeyClosed{StartKeyClosed: []byte(key(lo))}, EndKey: &btpb.RowRange_EndKeyClosed{EndKeyClosed: []byte(key(hi))}}}}
 				}
 				s := clock.Tick()
-				res := drive.ReadRows(data, req)
+				ctx, cancel := drive.Ctx()
+				res := drive.ReadRowsCtx(ctx, data, req, func(_ int, lastKey string) {
+					var at int
+					if _, err := fmt.Sscanf(lastKey, "row%05d", &at); err == nil {
+						atomic.StoreInt64(&scanPos[sc], int64(at))
+					}
+				})
+				cancel()
 				scans[k] = scan{lo: lo, hi: hi, S: s, E: clock.Tick(), res: res}
 			}
 		}(sc)
